@@ -14,6 +14,7 @@ func checkC01(r *Run) {
 		ruleA1(r, p)
 		ruleA2(r, p)
 		ruleA3(r, p)
+		rulePassThroughWritesOnce(r, p, "A3")
 		if cfg == "J" {
 			// Output must not leave two loggers appending into one context array (UpdateContext
 			// on both would cut a member in the middle): the completeness/independence rule of C05
